@@ -168,7 +168,13 @@ def run(ctx, spec):
         n0 = int(dup.sum())
         wit = {"config": slopecfg.summary(cfg), "duplicate": which}
         for step in range(int(rng.integers(2, 5))):
+            if j == 0 and step == 1:
+                obj.threads = 2            # the multi-process builder feeds the reconstructor too
             M = np.array(obj.make_covariance_matrix(), copy=True)
+            if obj.threads != 1:
+                slopecfg.kill_pools()
+                obj.threads = 1
+                ctx.count("multi_process_end_to_end_builds")
             rc = rc_hist if (step > 0 and rng.random() < 0.7) else float(rng.choice([0.0, 1e-6]))
             rc_hist = rc
             R = obj.make_tomographic_reconstructor(rc) if rc else obj.make_tomographic_reconstructor()
